@@ -89,6 +89,8 @@ func runC04(p *eng.Prog, r *eng.Report, tier string) {
 	c04Deadline(c)
 	c04ReadyNotAdoptedEarly(c, "C04.9")
 	c04CtxBetweenSteps(c, "C04.10")
+	c04WrappersDoNotRetry(c, "C04.11")
+	deadlineWatchersArmedAtOnce(c, "C04.12")
 	c04NoPanic(c, neg)
 	// a fault that panics is not "failing closed": decoder API misuse that
 	// panics on a peer's stream error (C04.6)
@@ -702,4 +704,78 @@ func callerSlicesNotRewritten(c *cx, id string, fns []*eng.Fn) {
 		}
 	}
 	c.r.Note("%s: %d writes through slice parameters examined in the negotiation set", id, n)
+}
+
+// c04WrappersDoNotRetry (C04.11): the connection wrappers of the session
+// (conn, teeConn) are transparent: their Read and Write perform at most one
+// operation of the wrapped connection per call - no call of the wrapped
+// Read/Write lies on a cycle of the method's graph. A retry loop "while the
+// error is temporary" spins for ever on the expired deadline that the
+// cancellation watcher sets (a deadline error is Temporary), so the call
+// outlives its context.
+func c04WrappersDoNotRetry(c *cx, id string) {
+	n := 0
+	for _, f := range c.allFns() {
+		if f.Body == nil || f.Obj == nil || f.Sig() == nil || f.Sig().Recv() == nil || !strings.HasPrefix(f.Short, "xmpp.") {
+			continue
+		}
+		if f.Obj.Name() != "Read" && f.Obj.Name() != "Write" {
+			continue
+		}
+		tn := recvTypeName(f)
+		if tn == nil || !(strings.HasSuffix(strings.ToLower(tn.Name()), "conn")) {
+			continue
+		}
+		g := f.Graph()
+		for _, cl := range f.AllCalls() {
+			cid := f.CalleeID(cl)
+			if !strings.HasSuffix(cid, ".Read") && !strings.HasSuffix(cid, ".Write") {
+				continue
+			}
+			pt, ok := g.Where(cl)
+			if !ok {
+				continue
+			}
+			n++
+			c.r.Check(id, f, "wrapped "+cid+" called once per call", "O: a connection wrapper forwards each Read/Write once (no retry loop around the wrapped operation)", cl.Pos(), !g.Reachable(g.After(pt), pt, nil, nil), "the wrapped operation is retried in a loop: an error that persists (the expired deadline set on cancellation is Temporary) makes the call spin for ever")
+		}
+	}
+	c.r.Floor(id, "wrapped reads and writes in the connection wrappers", n, 3)
+}
+
+// deadlineWatchersArmedAtOnce (C06.19/C04.12): setDeadline and
+// setWriteDeadline start the goroutine that turns the end of the context into
+// an expired connection deadline and return the function that stops it. They
+// are used as `defer setWriteDeadline(ctx, conn)()`: the watcher is armed at
+// the defer statement and stopped when the function returns. Without the
+// second pair of parentheses the call itself is deferred: nothing watches the
+// context while the request is written, and a send to a peer that has stopped
+// reading never returns.
+func deadlineWatchersArmedAtOnce(c *cx, id string) {
+	n := 0
+	for _, f := range c.allFns() {
+		if f.Body == nil {
+			continue
+		}
+		g := f.Graph()
+		for _, cl := range f.AllCalls() {
+			cid := f.CalleeID(cl)
+			if cid != "xmpp.setDeadline" && cid != "xmpp.setWriteDeadline" {
+				continue
+			}
+			n++
+			bad := ""
+			if d, isDefer := g.Parent(cl).(*ast.DeferStmt); isDefer && d.Call == cl {
+				bad = "the call itself is deferred: the watcher is started when the function returns and never stopped"
+			}
+			if _, isGo := g.Parent(cl).(*ast.GoStmt); isGo {
+				bad = "the watcher is started from another goroutine"
+			}
+			if _, isExpr := g.Parent(cl).(*ast.ExprStmt); isExpr {
+				bad = "the stop function is dropped: the watcher is never stopped"
+			}
+			c.r.Check(id, f, "deadline watcher "+cid+" armed at once", "O: the watcher is armed where it is written (its result, the stop function, is what is deferred or kept)", cl.Pos(), bad == "", bad)
+		}
+	}
+	c.r.Floor(id, "uses of the deadline watchers", n, 4)
 }
